@@ -476,8 +476,11 @@ func panicKey(log string) (string, string) {
 	return "panic@" + frame + ":" + mon.NormMsg(msg), line
 }
 
+// isHang reports whether the only finding of a result is one that depends on
+// the environment (deadline reached, connection broken without a status):
+// such findings are confirmed by re-execution before they are reported.
 func isHang(res *Result) bool {
-	return len(res.Diffs) == 1 && res.Diffs[0].Obs == "hang"
+	return len(res.Diffs) == 1 && (res.Diffs[0].Obs == "hang" || res.Diffs[0].Obs == "transport-error")
 }
 
 func diffKey(s *Script, d Diff) string {
@@ -605,7 +608,7 @@ func RunC10(r *mon.Run) {
 				report(r, res)
 				continue
 			}
-			res.Incon = "proxied call hit the deadline once but not when the script was executed again: " + res.Diffs[0].Detail
+			res.Incon = "not reproduced when the script was executed again: " + res.Diffs[0].Detail
 			res.Diffs = nil
 			report(r, res)
 		}
